@@ -19,6 +19,11 @@ use crate::{
 #[derive(Clone, Debug, Serialize, Deserialize)]
 pub struct FaultCase {
     pub hist: Hist,
+    /// the faulted runs issue set/get/del as RESP commands through an in-process server over
+    /// the store (the way a user of the server meets a failing disk): an error reply or a
+    /// connection ended without a reply is the operation's error
+    #[serde(default)]
+    pub via_resp: bool,
 }
 
 fn strategy(tier: Tier) -> BoxedStrategy<FaultCase> {
@@ -35,11 +40,20 @@ fn strategy(tier: Tier) -> BoxedStrategy<FaultCase> {
         3 => workload(tier, false, w, 3, 12, 30),
         1 => crate::props::c03::workload_partial(tier, false, w, 3, 12, 30),
     ];
-    (any::<bool>(), wl)
-        .prop_map(|(sync, mut hist)| {
-            hist.cfg.sync_always = sync;
-            // end with a reopen so that the directory is also read back by a recovery
-            FaultCase { hist }
+    (prop_oneof![11 => any::<bool>().prop_map(|b| if b { 1u8 } else { 0u8 }), 1 => Just(2u8)], wl, prop_oneof![3 => Just(false), 1 => Just(true)])
+        .prop_map(|(sync, mut hist, via_resp)| {
+            hist.cfg.sync_always = sync == 1;
+            // one workload in twelve runs its faulted runs with interval sync (1 ms) and waits a
+            // few ticks after the operation that met the fault
+            hist.cfg.sync_interval_ms = if sync == 2 { 1 } else { 0 };
+            if via_resp {
+                // the RESP commands take keys that are UTF-8 strings: keep the fills that are
+                // (NUL bytes, CR/LF, text) and a last byte below 0x80
+                for k in hist.keys.iter_mut() {
+                    k.seed = (k.seed % 8) * 6 + [0u8, 1, 3][(k.seed % 3) as usize];
+                }
+            }
+            FaultCase { hist, via_resp }
         })
         .boxed()
 }
@@ -95,8 +109,9 @@ struct Symptom {
 }
 
 /// Run the workload with the armed fault; returns the symptom of the first discrepancy.
-fn faulted_run(hist: &Hist, dir: &std::path::Path, keys: &[Vec<u8>]) -> (Option<Symptom>, Option<i64>) {
+fn faulted_run(hist: &Hist, dir: &std::path::Path, keys: &[Vec<u8>], via_resp: bool) -> (Option<Symptom>, Option<i64>) {
     let mut ap = OpApplier::new(hist, dir);
+    ap.via_resp = via_resp && keys.iter().all(|k| std::str::from_utf8(k).is_ok());
     let mut fm = FaultModel {
         model: Model::new(),
         alt: None,
@@ -132,6 +147,10 @@ fn faulted_run(hist: &Hist, dir: &std::path::Path, keys: &[Vec<u8>]) -> (Option<
         let fired_now = !before_fired && shim::inject_fired();
         if fired_now {
             fired_op = Some(i as i64);
+            if hist.cfg.sync_interval_ms > 0 && !hist.cfg.sync_always {
+                // let the sync timer tick a few times before the next operation
+                std::thread::sleep(std::time::Duration::from_millis(4 * hist.cfg.sync_interval_ms + 2));
+            }
         }
         if let OpRes::Panic(p) = &got {
             return (
@@ -307,8 +326,12 @@ fn exec(c: &FaultCase, env: &Env) -> Outcome {
         return out;
     }
     let hist = &c.hist;
-    // fault-free run enumerates the sites
-    let run = run_recorded(hist, &env.scratch, "store", true);
+    let interval = hist.cfg.sync_interval_ms > 0 && !hist.cfg.sync_always;
+    // fault-free run enumerates the sites (with the sync timer off: its fsync calls come at
+    // arbitrary moments; in interval mode the injector neither counts nor fails fsync calls)
+    let mut rec_hist = hist.clone();
+    rec_hist.cfg.sync_interval_ms = 0;
+    let run = run_recorded(&rec_hist, &env.scratch, "store", true);
     if let Some(f) = run.failure.clone() {
         out.fail = Some(f);
         return out;
@@ -370,7 +393,18 @@ fn exec(c: &FaultCase, env: &Env) -> Outcome {
     let dir = env.scratch.join("store");
     let mut evals = 0u64;
     let mut not_fired = 0u64;
+    let mut non_fsync_seen = 0usize;
     'sites: for (n, site) in sites.iter().enumerate() {
+        // index of this site for the injector
+        let arm_at = if interval {
+            if site.call == "fsync" {
+                continue;
+            }
+            non_fsync_seen += 1;
+            non_fsync_seen - 1
+        } else {
+            n
+        };
         let mut kinds: Vec<(i32, bool, &str)> = vec![(libc::ENOSPC, false, "ENOSPC"), (libc::EIO, false, "EIO")];
         if site.is_write {
             kinds.push((libc::EIO, true, "short-write-then-EIO"));
@@ -383,8 +417,12 @@ fn exec(c: &FaultCase, env: &Env) -> Outcome {
             if dbg {
                 shim::record_start();
             }
-            shim::inject_arm(n as i64, errno, short);
-            let (sym, fired_op) = faulted_run(hist, &dir, &keys);
+            if interval {
+                shim::inject_arm_no_fsync(arm_at as i64, errno, short);
+            } else {
+                shim::inject_arm(arm_at as i64, errno, short);
+            }
+            let (sym, fired_op) = faulted_run(hist, &dir, &keys, c.via_resp);
             let fired = shim::inject_disarm();
             if dbg {
                 eprintln!("--- site {} {}", n, ename);
@@ -435,6 +473,12 @@ fn exec(c: &FaultCase, env: &Env) -> Outcome {
     if hist.cfg.small_file != u64::MAX {
         out.labels.push("workload-with-arbitrary-merge-thresholds".into());
     }
+    if c.via_resp {
+        out.labels.push("workload-through-the-resp-server".into());
+    }
+    if interval {
+        out.labels.push("workload-with-interval-sync".into());
+    }
     for s in &sites {
         out.labels.push(format!("site:{}:{}@{}", s.call, s.file_kind, s.op_class));
     }
@@ -447,7 +491,7 @@ pub fn prop() -> Prop<FaultCase> {
     Prop {
         id: "C20",
         level: "fault_enumeration",
-        rule: "Workloads (3-12 ops quick / up to 30 thorough over set/get/del/merge/reopen, entries below and above the 8 KiB write buffer, rollovers, all-eligible merges, sync none or always) are generated by proptest. A fault-free recorded run enumerates EVERY fault site (each create, write, fsync, unlink call on a store file, the initial open included); the workload is then re-run from scratch once per site and fault kind (ENOSPC, EIO, and for writes additionally a short write followed by EIO), the single transient fault injected by the LD_PRELOAD shim. Oracle per run: the op during which the fault fired returns Err; every other op returns Ok and matches the model, where the failed op's own key may read as its old or its new value until the next acknowledged op on it; all keys are re-read after every op; after the workload the directory opens and reads the same way. evaluations = faulted runs. Non-trivial: a fault that fired inside a merge, a rollover or a multi-call append; distinct = (workload hash, site, fault kind).",
+        rule: "Workloads (3-12 ops quick / up to 30 thorough over set/get/del/merge/reopen, entries below and above the 8 KiB write buffer, rollovers, all-eligible merges, sync none or always, one workload in twelve with interval sync) are generated by proptest. A fault-free recorded run enumerates EVERY fault site (each create, write, fsync, unlink call on a store file, the initial open included); the workload is then re-run from scratch once per site and fault kind (ENOSPC, EIO, and for writes additionally a short write followed by EIO), the single transient fault injected by the LD_PRELOAD shim. A quarter of the workloads issue their set/get/del in the faulted runs as RESP commands over one connection to an in-process server on the store's handle (an error reply, or the connection ended without a reply, is the operation's error; the harness reconnects). Workloads with interval sync (1 ms) run the enumeration with the timer off, inject only at create/write/unlink calls (the timer's fsync calls come at arbitrary moments and are neither counted nor failed) and wait six milliseconds after the operation that met the fault, so that the timer syncs the file the failed append left behind. Oracle per run: the op during which the fault fired returns Err; every other op returns Ok and matches the model, where the failed op's own key may read as its old or its new value until the next acknowledged op on it; all keys are re-read after every op; after the workload the directory opens and reads the same way. evaluations = faulted runs. Non-trivial: a fault that fired inside a merge, a rollover or a multi-call append; distinct = (workload hash, site, fault kind).",
         assumptions: &[
             "one transient fault per run; the same call succeeds when retried",
             "the single threaded workload with merge policy never issues the same call sequence in every run (runs where the armed site was not reached are counted as fault-did-not-fire and not judged)",
